@@ -13,6 +13,9 @@ vstatic!(WRITES: [VAtomicUsize; 2] = [VAtomicUsize::new(0), VAtomicUsize::new(0)
 vstatic!(LEN: [VAtomicUsize; 2] = [VAtomicUsize::new(0), VAtomicUsize::new(0)]);
 vstatic!(SUM: [VAtomicUsize; 2] = [VAtomicUsize::new(0), VAtomicUsize::new(0)]);
 vstatic!(FAIL: [VAtomicUsize; 2] = [VAtomicUsize::new(0), VAtomicUsize::new(0)]);
+vstatic!(SHORT: [VAtomicUsize; 2] = [VAtomicUsize::new(0), VAtomicUsize::new(0)]);      // != 0: write() accepts one byte per call
+vstatic!(TOTAL: [VAtomicUsize; 2] = [VAtomicUsize::new(0), VAtomicUsize::new(0)]);      // bytes ACCEPTED so far
+vstatic!(ROLL: [VAtomicUsize; 2] = [VAtomicUsize::new(0), VAtomicUsize::new(0)]);       // rolling hash of the accepted bytes
 fn addr<T: ?Sized>(t: &T) -> usize { t as *const T as *const () as usize }
 struct Sink(usize);
 struct SinkW(usize);
@@ -21,7 +24,11 @@ impl io::Write for SinkW {
         WRITES[self.0].fetch_add(1, VSeq); LEN[self.0].store(b.len(), VSeq);
         let mut s = 0usize; let mut i = 0; while i < b.len() { s = s.wrapping_mul(31).wrapping_add(b[i] as usize); i += 1; }
         SUM[self.0].store(s, VSeq);
-        if FAIL[self.0].load(VSeq) != 0 { Err(io::ErrorKind::Other.into()) } else { Ok(b.len()) }
+        if FAIL[self.0].load(VSeq) != 0 { return Err(io::ErrorKind::Other.into()); }
+        let take = if SHORT[self.0].load(VSeq) != 0 && b.len() > 1 { 1 } else { b.len() };
+        let mut r = ROLL[self.0].load(VSeq); let mut i = 0; while i < take { r = r.wrapping_mul(31).wrapping_add(b[i] as usize); i += 1; }
+        ROLL[self.0].store(r, VSeq); TOTAL[self.0].fetch_add(take, VSeq);
+        Ok(take)
     }
     fn flush(&mut self) -> io::Result<()> { Ok(()) }
 }
@@ -136,4 +143,21 @@ fn c13_on_event_one_writer_one_write_own_bytes() {
         assert!(WRITES[0].load(VSeq) == before + 1 && LEN[0].load(VSeq) == 2 && SUM[0].load(VSeq) == hash(b"C\n"), "C13.on_event.second_record_carries_nothing_from_the_first");
         assert!(META_SEEN[0].load(VSeq) == addr(&VMETA_DEBUG), "C13.on_event.second_factory_call_gets_second_metadata");
     }
+}
+
+// a writer may accept fewer bytes than offered (pipes, sockets): the WHOLE newline-terminated record still has to arrive
+#[kani::proof]
+#[kani::unwind(24)]
+#[kani::stub(core::fmt::Formatter::pad, pad_stub)]
+#[kani::stub(sharded_slab::Pool::clear, stub_pool_clear)]
+fn c13_on_event_whole_record_reaches_a_writer_that_accepts_one_byte_at_a_time() {
+    SHORT[0].store(1, VSeq);
+    let layer: Subscriber<VRoot, format::DefaultFields, Fe, Sink> = Subscriber {
+        make_writer: Sink(0), fmt_fields: format::DefaultFields::default(), fmt_event: Fe { ok: true, second: false },
+        fmt_span: format::FmtSpanConfig::default(), is_ansi: nd(), log_internal_errors: false, _inner: PhantomData };
+    let stack = VRoot::empty().with(layer);
+    let vs = VMETA.fields().value_set(&[]); let ev = Event::new(&VMETA, &vs);
+    Collect::event(&stack, &ev);
+    assert!(MADE_FOR[0].load(VSeq) == 1 && MADE[0].load(VSeq) == 0, "C13.on_event.short_writes.asks_factory_once_with_metadata");
+    assert!(TOTAL[0].load(VSeq) == 3 && ROLL[0].load(VSeq) == hash(b"AB\n"), "C13.on_event.short_writes.the_whole_record_is_handed_over_including_the_newline");
 }
